@@ -367,6 +367,7 @@ func c05GrpcSession(seed int64, deadline time.Duration) *c05GrpcResult {
 
 	tick := time.NewTicker(100 * time.Millisecond)
 	defer tick.Stop()
+	var desyncSince time.Time
 	for time.Since(t0) < deadline {
 		<-tick.C
 		mu.Lock()
@@ -374,6 +375,19 @@ func c05GrpcSession(seed int64, deadline time.Duration) *c05GrpcResult {
 		mu.Unlock()
 		if bad || (unaryDone.Load() && streamDone.Load()) {
 			break
+		}
+		// The pairing-desync state is permanent: a session that has been
+		// in it for 30 s need not wait for its deadline. (A pairing in
+		// progress passes through this state for the moment between the
+		// client's act three and the server's processing of it.)
+		if cl.CD.RemoteKey() != nil && s.CD.RemoteKey() == nil {
+			if desyncSince.IsZero() {
+				desyncSince = time.Now()
+			} else if time.Since(desyncSince) > 30*time.Second {
+				break
+			}
+		} else {
+			desyncSince = time.Time{}
 		}
 	}
 	res.completed = unaryDone.Load() && streamDone.Load()
